@@ -214,7 +214,31 @@ func DrawSeg(t *rapid.T, n int) Seg {
 
 // DrawRecipe draws a data recipe of total length <= max.
 func DrawRecipe(t *rapid.T, max int) Recipe {
+	if max >= 140000 && rapid.IntRange(0, 15).Draw(t, "sparse") == 0 {
+		return drawSparse(t, max)
+	}
 	return DrawRecipeN(t, DrawLen(t, "total", max))
+}
+
+// drawSparse draws "sparse file" data: long runs of one byte aligned (or nearly aligned)
+// to 64 KiB boundaries, so that a whole block consists of one symbol occurring 65536 times.
+func drawSparse(t *rapid.T, max int) Recipe {
+	var r Recipe
+	lead := rapid.SampledFrom([]int{0, 0, 1, 100, 65536, 65535}).Draw(t, "sparse_lead")
+	if lead > 0 {
+		r.Segs = append(r.Segs, Seg{Kind: "text", N: lead, Seed: rapid.Uint64Range(0, 1<<20).Draw(t, "seed")})
+	}
+	b := rapid.SampledFrom([]int{0, 0, 255, 32}).Draw(t, "sparse_byte")
+	n := rapid.SampledFrom([]int{65536, 65536, 131072, 65535, 65537, 70000}).Draw(t, "sparse_run")
+	if lead+n > max {
+		n = max - lead
+	}
+	r.Segs = append(r.Segs, Seg{Kind: "run", N: n, A: b})
+	tail := rapid.SampledFrom([]int{0, 0, 1, 50}).Draw(t, "sparse_tail")
+	if tail > 0 && lead+n+tail <= max {
+		r.Segs = append(r.Segs, Seg{Kind: "text", N: tail, Seed: 5})
+	}
+	return r
 }
 
 // DrawRecipeN draws a data recipe of exactly total bytes.
